@@ -302,6 +302,14 @@ def execute(mat, ctx):
                 from ..util import rc as _rc
                 texts = list(base_texts)
                 inst = base_texts[0]
+                longinst = in_child(lambda: gen.instance(gen.rng_for(seed, PROP, "long", n, rnd), Q.structure(), run_min=70, run_max=110) + gen.rand_dna(rng, 10))
+                texts.append(longinst)
+                for _ in range(3):
+                    # same first >54 and last nucleotides of the structure, another number of internal sites
+                    i = rng.randrange(len(longinst) - 40, len(longinst) - 25)
+                    texts.append(longinst[:i] + rng.choice([site, _rc(site)]) + longinst[i:])
+                    j = rng.randrange(len(longinst) - 40, len(longinst) - 25)
+                    texts.append(longinst[:j] + gen.rand_dna(rng, 1) + longinst[j + 1:])
                 for _ in range(4):
                     i = rng.randrange(len(inst))
                     texts.append(inst[:i] + rng.choice([site, _rc(site)]) + inst[i:])
